@@ -375,6 +375,11 @@ def gen_spec(seed: int, config: str | None = None) -> dict:
     # payload lists as callers really have them: the same payload object listed twice, two payloads that compare equal,
     # two different payloads that name the same path (a file processed under two option sets).  "One result per payload"
     # is per list entry.  Drawn from a stream of its own so that the rest of the spec stays what it was.
+    cb = random.Random(derive(seed, "bodies"))
+    if pool == "thread" and cb.random() < 0.6:
+        spec["knobs"]["concurrent_bodies"] = cb.choice([2, 4, 4, 10])  # mean number of lines a body runs before another may
+        if spec["knobs"]["tick_max"] == 0:
+            spec["knobs"]["tick_max"] = 1
     dr = random.Random(derive(seed, "dups"))
     if n >= 2 and dr.random() < 0.12:
         for _ in range(dr.choice([1, 1, 2])):
@@ -517,6 +522,11 @@ def patched(env: execseam.ExecEnv | None, spec: dict, sim: Sim):
         setattr_(m_task, "memory_use", lambda: 0)
         setattr_(m_task, "time", SimTime(sim))
         setattr_(m_visual, "time", SimTime(sim))
+        import threading as _th
+
+        for _name, _val in list(m_task.__dict__.items()):
+            if isinstance(_val, type(_th.Lock())):
+                setattr_(m_task, _name, execseam.CoopLock())  # module-level locks must not block a baton-scheduled body for real
         if spec["entry"] == "processing_loop":
             import tatsu.barz as barz
 
@@ -743,6 +753,15 @@ def run(spec: dict, decider: Decider, keep_events: bool = False) -> RunResult:
     raised = None
     sink: list = []
     env.fresh_worker_state = spec["knobs"].get("fresh_worker_state", False)
+    if spec["pool"] == "thread" and spec["knobs"].get("concurrent_bodies"):
+        # a thread pool runs its task bodies concurrently in ONE interpreter: they interleave between any two lines
+        task_py = sys.modules["tatsu.parproc.task"].__file__
+        env.concurrent_bodies = True
+        env.fresh_worker_state = False
+        env.gap_mean = spec["knobs"]["concurrent_bodies"]
+        env.relevant = lambda code: code.co_filename == task_py or (code.co_filename == __file__ and code.co_name == "work")
+        sim.probe("thread_pool_bodies_interleaved")
+    limit_before = sys.getrecursionlimit()
     try:
         with patched(env, spec, sim):
             if spec.get("earlier"):
@@ -823,6 +842,9 @@ def run(spec: dict, decider: Decider, keep_events: bool = False) -> RunResult:
                 sim.probe("uncaptured_raised_out_of_loop")
     except Violation as v:
         viol = v
+    finally:
+        env.abandon_bodies()
+        sys.setrecursionlimit(limit_before)  # interpreter-wide: must not leak into the next run of this worker
     rr.violation = None if viol is None else {
         "clause": viol.clause, "detail": viol.detail,
         "signature": f"{PROP}:{viol.clause}:{spec['pool']},{window_relation(spec)}",
